@@ -50,14 +50,19 @@ PROPERTIES["C03"] = dict(
 PROPERTIES["C02"] = dict(
     units=["authz"],
     technique="Verus contracts on the extracted real functions (decision spec from the statement, loop invariants over HashMap/HashSet iteration)",
-    level_text="Deductive proof (Verus/Z3) for every rule set (as the agent holds it: name-indexed tables), caller and URL: "
-               "ComputedAuthorizationItem::is_allowed, Privilege::is_match, Identity::is_match and hyper_client::query_pairs, extracted "
-               "verbatim, return exactly the decision / match / parameter list written from the statement; order-independence over "
+    level_text="Deductive proof (Verus/Z3) for every rule document (missing sections, dangling names, duplicate names, any length), "
+               "caller and URL: ComputedAuthorizationItem::from_authorization_item, extracted verbatim, is proved (three nested loops, "
+               "inductive invariants over the prefix of role assignments / privileges / identities processed) to build tables that "
+               "represent the document (repr), is_allowed, Privilege::is_match, Identity::is_match and hyper_client::query_pairs are "
+               "proved to return exactly the decision / match / parameter list written from the statement, and a lemma proves that the "
+               "decision on the tables equals the decision the statement defines on the document; order-independence over "
                "HashMap/HashSet iteration is part of the proof because the postcondition mentions no order.",
     level_note="Trusted: Verus/Z3/rustc; assumed specs of str::to_lowercase/starts_with/split/splitn, Uri::path/query, OsString/PathBuf "
-               "From<&String> and ==, HashMap/HashSet model; `find` returns the first element satisfying the (verified, lifted) closure. "
-               "Not yet under contract: from_authorization_item (document -> tables; duplicate names in a section make the last one win), "
-               "so the claim is over the tables the agent holds. A request repeating a query key is matched on its first occurrence.",
+               "From<&String> and ==, HashMap/HashSet model (vstd) incl. get_mut through a borrowed key; `find` returns the first "
+               "element satisfying the (verified, lifted) closure; derived Clone of Privilege/Identity returns an equal value. "
+               "Duplicate names inside one section: the last item of that name is the one in force (statement is silent; lemma "
+               "distinct_names_last_is_the_item shows this is `the item` when names are distinct). A request repeating a query key is "
+               "matched on its first occurrence. serde parsing of the JSON document is outside (the document is the parsed value).",
     design_ref="DESIGN.md section 3 C02",
     assumptions=[],
 )
